@@ -35,15 +35,16 @@ def protectedClass (c : String) : Bool :=
 /-- the functions that may write while the stream is being negotiated -/
 def setupFns : List String := ["negotiateSession", "writeStreamFeatures"]
 
-/-- the exported one-shot entry points take the output lock themselves (or, `Send` /
-`SendElement`, delegate to a function that does: `C05_gen_broken_guard`), and the stream
-negotiation and the token writer's methods are the only other writers' classes -/
+/-- the table is there, the token writer's methods are in it (class `holder`), and only the two
+negotiation functions are excused as `setup`.  That `Encode`, `EncodeElement`, `Send`,
+`SendElement` take the lock — themselves or through an unexported function they delegate to —
+is part of `C05_gen_broken_guard` (no row is pinned by name: a maintainer may move the locking
+body of an entry point into a helper) -/
 theorem C05_gen_lock_discipline :
     ∃ t, Generated.C05.transmitFns = some t ∧
-      ("Encode", "locked") ∈ t ∧ ("EncodeElement", "locked") ∈ t ∧
-      (∃ p ∈ t, p.2 = "holder") ∧
+      (∃ p ∈ t, p.2 = "holder") ∧ (∃ p ∈ t, p.2 = "locked") ∧
       (∀ p ∈ t, p.2 = "setup" → p.1 ∈ setupFns) := by
-  refine ⟨_, rfl, by decide, by decide, by decide, by decide⟩
+  refine ⟨_, rfl, by decide, by decide, by decide⟩
 
 /-- `TokenWriter` takes the output lock before it hands out the writer (and does not release
 it), values of the writer's type are made nowhere else without the lock, and the writer's
